@@ -129,7 +129,8 @@ CHECKS = {
            'that axis mix-ups show). Deductive part (Tier A): Table.sum (axis mapping), nnz, get_table_density, '
            'nonzero_counts (per vector of the requested axis the number of its non-zero cells or, with binary=False, its sum; '
            'for any other axis value one number for the whole table), min / max (per vector of the requested axis the least / '
-           'greatest non-zero cell, stored zeros eliminated first) - over an assumed contract of iter_data and ghost functions '
+           'greatest non-zero cell, stored zeros eliminated first; for the whole table the running minimum / maximum over the '
+           'per-sample values) - over an assumed contract of iter_data and ghost functions '
            'for the per-vector quantities. reduce, the count statistics, the CLI reports and the exports are bounded only. One '
            'known finding (pandas sparse fill value).', technique=TECH),
  'C20': dict(level='proof', technique=TECH,
